@@ -61,3 +61,22 @@ Proof.
   - apply andb_true_iff in E as [E1 E2]. apply H in E1. apply IH in E2. congruence.
   - inversion E; subst. apply andb_true_iff; split; [apply H | apply IH]; reflexivity.
 Qed.
+
+Lemma NoDup_app_inv {A} (l1 l2 : list A) :
+  NoDup (l1 ++ l2) -> NoDup l1 /\ NoDup l2 /\ (forall x, In x l1 -> ~ In x l2).
+Proof.
+  induction l1 as [|a l1 IH]; simpl; intros H.
+  - repeat split; [constructor|assumption|intros ? []].
+  - inversion H as [|? ? Hn Hd]; subst. destruct (IH Hd) as (H1 & H2 & H3).
+    repeat split; [constructor; [intros Hin; apply Hn; apply in_or_app; auto|assumption]|assumption|].
+    intros x [<-|Hx] Hx2; [apply Hn; apply in_or_app; auto|exact (H3 x Hx Hx2)].
+Qed.
+
+Lemma NoDup_app_intro {A} (l1 l2 : list A) :
+  NoDup l1 -> NoDup l2 -> (forall x, In x l1 -> ~ In x l2) -> NoDup (l1 ++ l2).
+Proof.
+  induction l1 as [|a l1 IH]; simpl; intros H1 H2 H3; [assumption|].
+  inversion H1; subst. constructor.
+  - intros Hin. apply in_app_or in Hin as [Hin|Hin]; [contradiction|]. exact (H3 a (or_introl eq_refl) Hin).
+  - apply IH; auto.
+Qed.
